@@ -33,6 +33,8 @@ def energies(arr, kind):
     q = arr[:, 3:]
     if kind == "smooth":
         return 4.0 * np.sin(0.3 * x + 0.1) + 3.0 * np.cos(0.5 * y + 0.2 * z) + 2.5 * q[:, 0] - 1.5 * q[:, 2] * q[:, 1]
+    if kind == "int":        # whole-number energies handed over with an integer dtype
+        return np.round(4.0 * np.sin(0.3 * x + 0.1) + 3.0 * np.cos(0.5 * y + 0.2 * z) + 2.5 * q[:, 0]).astype(np.int64)
     if kind == "offset":     # absolute (quantum-chemistry style) energies: small differences on a huge common offset
         return -400000.0 + 4.0 * np.sin(0.3 * x + 0.1) + 3.0 * np.cos(0.5 * y + 0.2 * z) + 2.5 * q[:, 0]
     if kind == "offset_pos":
@@ -88,7 +90,7 @@ def run_case(case):
                 if not np.all(np.isfinite(Qd)):
                     vs.append(viol(pre + tag + "|nonfinite", "rate matrix has non-finite entries", case))
                     continue
-                logpi = np.log(np.where(V > 0, V, 1.0)) - E * 1000 / (R_GAS * T)
+                logpi = np.log(np.where(V > 0, V, 1.0)) - np.asarray(E, dtype=float) * 1000 / (R_GAS * T)
                 pi = np.exp(logpi - logpi.max())
                 F = pi[:, None] * Qd
                 scale = np.maximum(np.abs(F), np.abs(F.T))
@@ -104,7 +106,7 @@ def run_case(case):
                                    "matrix is not defined", case))
                     continue
                 # spectral decomposition (one temperature)
-                if not case.get("decompose") or n < 15 or T != case["Ts"][0] or ek.startswith("offset"):
+                if not case.get("decompose") or n < 15 or T != case["Ts"][0] or ek.startswith("offset") or ek == "int":
                     continue
                 dense_ev = np.linalg.eigvals(Qd)
                 if np.abs(dense_ev.imag).max() > 1e-8 * np.abs(dense_ev).max():
@@ -211,7 +213,7 @@ def cases(tier):
                         i += 1
                         dec = (tier == "thorough") or (i % 4 == 0)
                         out.append({"b": b, "o": o, "t": t, "cartesian": cart, "f": f,
-                                    "energies": ["smooth", "well", "offset", "offset_pos"], "Ts": [273.15, 310.0], "decompose": dec,
+                                    "energies": ["smooth", "well", "offset", "offset_pos", "int"], "Ts": [273.15, 310.0], "decompose": dec,
                                     "ks": [6, 12], "seeds": [0, 1, 2]})
     return out
 
